@@ -178,6 +178,9 @@ def assigned_names(stmts):
     return names, stores, calls
 
 
+TRIG = z3.Function("pyvc_trig", z3.IntSort(), z3.BoolSort())
+
+
 # --------------------------------------------------------------------------- state
 
 class State:
@@ -538,7 +541,7 @@ class Executor:
         if spec and name in ("isnan", "isfinite", "isinf", "implies", "old", "len", "abs", "min", "max", "int",
                              "float", "sqrt", "iff", "ite", "all", "any", "range", "floor", "bool", "atan", "atan2", "sin", "cos",
                              "asin", "exp", "same", "close", "pi", "nan", "inf", "array_eq", "array2", "nanmean", "nansum",
-                             "nanmin", "nanmax", "nanstd", "nanvar", "valid_values"):
+                             "nanmin", "nanmax", "nanstd", "nanvar", "valid_values", "trig"):
             if name == "pi":
                 self.used_axioms.add("pi")
                 return VFloat(xr.fin(xr.PI))
@@ -649,6 +652,9 @@ class Executor:
                 v = self.ev(e, st, spec)
                 b = to_bool(v, e)
                 vals.append(b)
+                bs = z3.simplify(b)
+                if (z3.is_true(bs) and isinstance(n.op, ast.Or)) or (z3.is_false(bs) and isinstance(n.op, ast.And)):
+                    break       # Python does not evaluate the remaining operands
                 # short circuit: later operands are evaluated only if ...
                 st.guards.append(b if isinstance(n.op, ast.And) else z3.Not(b))
                 pushed += 1
@@ -822,6 +828,8 @@ class Executor:
                 return VInt(q)
             # Python's % for a positive modulus is SMT-LIB mod (the solver's own mod reasoning works on this form)
             if z3.is_int_value(ys) and ys.as_long() > 0:
+                return VInt(x % y)
+            if self.known_positive(st, y):
                 return VInt(x % y)
             return VInt(z3.If(y > 0, x % y, -((-x) % (-y))))
         if isinstance(op, ast.Pow):
@@ -1121,6 +1129,12 @@ class Executor:
         raise Unsupported("attribute %s of %r" % (n.attr, base), n)
 
     def module_attr(self, mod, attr, node):
+        if mod.name.startswith("iinfo:"):
+            lim = {"uint32": (0, 2 ** 32 - 1), "uint8": (0, 255), "int32": (-2 ** 31, 2 ** 31 - 1), "int64": (-2 ** 63, 2 ** 63 - 1),
+                   "uint64": (0, 2 ** 64 - 1)}.get(mod.name[6:])
+            if lim is None or attr not in ("min", "max"):
+                raise Unsupported("np.iinfo(%s).%s" % (mod.name[6:], attr), node)
+            return VInt(lim[0] if attr == "min" else lim[1])
         full = mod.name + "." + attr
         if mod.name in ("numpy", "math", "cupy"):
             if attr in ("nan", "NaN", "NAN"):
@@ -1235,6 +1249,17 @@ class Executor:
         for f in s2.pc[len(st.pc):]:
             st.pc.append(f)
         rng = z3.And(*conds) if len(conds) > 1 else conds[0]
+        if which == "all":
+            # user triggers: `if trig(v)` guards naming every bound variable
+            ids = {b.get_id(): b for b in bound}
+            trigs = {}
+            for cnd in conds:
+                for t in ([cnd] + (cnd.children() if z3.is_and(cnd) else [])):
+                    if z3.is_app(t) and t.decl().name() == "pyvc_trig" and t.arg(0).get_id() in ids:
+                        trigs[t.arg(0).get_id()] = t
+            if trigs and len(trigs) == len(bound):
+                pat = list(trigs.values())
+                return VBool(z3.ForAll(bound, z3.Implies(rng, body), patterns=[pat[0] if len(pat) == 1 else z3.MultiPattern(*pat)]))
         if which == "all" and getattr(self.c, "options", {}).get("select_patterns"):
             # explicit triggers: every array read whose indices are exactly the bound variables is an alternative pattern
             # (the automatic choice tends to pick one read only, e.g. of an updated array, and misses instances)
@@ -1497,6 +1522,12 @@ class Executor:
             # value identity including NaN (exact in the XR model; tolerant only in native replay)
             x, y = to_float(args[0], n), to_float(args[1], n)
             return VBool(x == y)
+        if b == "trig":
+            # trig(i): always true; its only role is to be the trigger of quantifiers guarded by it (`... for p in range(..) if trig(p)`),
+            # which are then instantiated exactly at the indices some hint or goal names - no matching loops through p-1, p-nx, ...
+            x = z3.Int("trig!x")
+            self.defs["trig"] = z3.ForAll([x], TRIG(x), patterns=[TRIG(x)])
+            return VBool(TRIG(to_int(args[0], n)))
         if b == "print":
             return VNone()
         if b == "range":
@@ -1754,6 +1785,8 @@ class Executor:
             if fn == "degrees":
                 self.used_axioms.add("pi")
                 return VFloat(xr.mul(to_float(args[0], n), xr.fin(180 / xr.PI)))
+            if fn == "iinfo" and len(args) == 1 and isinstance(args[0], VDType):
+                return VModule("iinfo:%s" % (args[0].name or args[0].et))
             if fn in ("float32", "float64"):
                 return self.cast("f", args[0], st, n, spec)
             if fn in ("int32", "int64", "uint8"):
@@ -1927,6 +1960,13 @@ class Executor:
                 pass
         if callee.inline:
             return self.inline_call(callee, bound, st, n, spec)
+        # ghost parameters of the callee are taken from the caller's ghost state of the same name
+        for g in getattr(callee, "ghost_params", {}):
+            if g in st.env:
+                bound[g] = st.env[g]
+                names.append(g)
+            else:
+                raise Unsupported("call to %s: no ghost value %s in the caller" % (qual, g), n)
         if len(bound) != len(names):
             # defaults are not modelled
             raise Unsupported("call to %s with missing args %s" % (qual, set(names) - set(bound)), n)
@@ -1940,7 +1980,7 @@ class Executor:
         sub.defs = self.defs
         sub.suppress = 1
         # type conformance (shallow)
-        for nm, ty in callee.params.items():
+        for nm, ty in list(callee.params.items()) + list(getattr(callee, "ghost_params", {}).items()):
             self.check_type(bound[nm], ty, cst, nm, n)
         cst.entry_env = dict(cst.env)
         cst.old_heap = dict(cst.heap)
@@ -2297,19 +2337,28 @@ class Executor:
             self.assign(t, v, st, s, spec)
         if not spec and self.c.ghost.get("after_assign"):
             for t in s.targets:
-                b = t
-                while isinstance(b, ast.Subscript):
-                    b = b.value
-                if isinstance(b, ast.Name) and b.id in self.c.ghost["after_assign"]:
-                    for src in self.c.ghost["after_assign"][b.id]:
-                        for g in ast.parse(src).body:
-                            ast.increment_lineno(g, s.lineno - 1)
-                            # ghost assertions are specifications (quantifiers, wpos, at_entry allowed)
-                            outs = self.exec_stmt(g, st, True if isinstance(g, ast.Assert) else spec)
-                            if len(outs) != 1:
-                                raise Unsupported("ghost statement forks", s)
-                            st = outs[0]
+                st = self.ghost_after(t, s, st, ast.unparse(s.value))
         return [st]
+
+    def ghost_after(self, t, s, st, value_src=None):
+        """ghost statements hooked after an assignment to `t` (key: the assigned name, or 'name<-value source')"""
+        b = t
+        while isinstance(b, ast.Subscript):
+            b = b.value
+        if not isinstance(b, ast.Name):
+            return st
+        hooks = self.c.ghost.get("after_assign", {})
+        for key in (b.id, "%s<-%s" % (b.id, value_src)):
+            for src in hooks.get(key, ()):
+                for g in ast.parse(src).body:
+                    ast.increment_lineno(g, s.lineno - 1)
+                    # ghost assertions / assignments are specifications (quantifiers, wpos, at_entry allowed; no index obligations)
+                    sp = isinstance(g, ast.Assert) or self.c.options.get("ghost_spec_mode", False)
+                    outs = self.exec_stmt(g, st, sp)
+                    if len(outs) != 1:
+                        raise Unsupported("ghost statement forks", s)
+                    st = outs[0]
+        return st
 
     def st_AnnAssign(self, s, st, spec):
         if s.value is not None:
@@ -2330,7 +2379,26 @@ class Executor:
         v = self.ev(s.value, st, spec)
         r = self.arith(s.op, cur, v, st, s, spec)
         self.assign(s.target, r, st, s, spec)
+        if not spec and self.c.ghost.get("after_assign"):
+            st = self.ghost_after(s.target, s, st, "<aug>")
         return [st]
+
+    def known_positive(self, st, y):
+        """y > 0 follows from the quantifier-free facts of the path (cached per term): lets `%` be plain SMT mod"""
+        cache = self.__dict__.setdefault("_pos_cache", {})
+        key = (y.get_id(), hash(tuple(h.get_id() for h in st.pc)))
+        if key not in cache:
+            sv = z3.Solver()
+            sv.set("timeout", 300)
+            for h in st.pc:
+                if not z3.is_quantifier(h):
+                    sv.add(h)
+            sv.add(y <= 0)
+            try:
+                cache[key] = sv.check() == z3.unsat
+            except z3.Z3Exception:
+                cache[key] = False
+        return cache[key]
 
     def feasible(self, st, cond):
         if not self.prune:
@@ -2772,6 +2840,9 @@ class Executor:
                 continue
             nret += 1
             extra = {"result": o_.ret}
+            for nm in getattr(self.c, "options", {}).get("ensures_locals", ()):
+                if nm in o_.env:
+                    extra[nm] = o_.env[nm]
             # parameters refer to the caller's objects: entry bindings, final heap
             view = o_.fork()
             view.env = dict(o_.entry_env)
